@@ -555,6 +555,8 @@ Call(f, a, in, env) ==
          LET k == a[1] IN
         (CASE in.t = "obj" /\ k.t = "str" -> R1(Bool(KvHas(in.kv, k.cp)))
            [] in.t = "arr" /\ k.t = "num" -> IF k.fr # 0 THEN RSkip ELSE R1(Bool(k.n >= 0 /\ k.n < Len(in.v)))
+           \* null | has(k): false in jq 1.6 and in both evaluators; no 1.7.1 recording => skip when strict
+           [] in.t = "null" -> IF k.t \in {"str", "num"} /\ ~env.strict THEN R1(Bool(FALSE)) ELSE RSkip
            [] OTHER -> RMsg(<<M_check_has, TypeCP(in), M_has_a, TypeCP(k), M_key>>))
     [] f = "in" -> Call("has", <<in>>, a[1], env)
     [] f = "getpath" -> IF a[1].t # "arr" THEN RErr(M_path_array) ELSE GetPathV(in, a[1].v, 1)
@@ -765,13 +767,15 @@ Eval(ast, in, env) ==
     [] op = "err0" -> RErrV(in)
     [] op = "err" -> BindR(Eval(ast.e, in, env), [k |-> "err"])
     [] op = "reduce" ->
-         \* jq evaluates INIT before SOURCE; which error wins when both fail is not pinned by a
-         \* 1.7.1 recording (the implementation reports SOURCE's): skip
-         IF Eval(ast.i, in, env).end.k # "ok" /\ Eval(ast.s, in, env).end.k # "ok" THEN RSkip ELSE
+         \* jq evaluates INIT before SOURCE and SOURCE once per INIT output: with an INIT that yields
+         \* nothing (empty or an error) a failing SOURCE is never reached (jq 1.6:
+         \* `null | foreach .[] as $x (empty; 1; 2)` -> no output); the implementation evaluates
+         \* SOURCE first and reports its error.  Not pinned by a 1.7.1 recording: skip
+         IF Eval(ast.i, in, env).out = <<>> /\ Eval(ast.s, in, env).end.k # "ok" THEN RSkip ELSE
          BindR(Eval(ast.i, in, env),
                [k |-> "reduceI", src |-> Eval(ast.s, in, env), ast |-> ast.u, x |-> ast.x, env |-> env])
     [] op = "foreach" ->
-         IF Eval(ast.i, in, env).end.k # "ok" /\ Eval(ast.s, in, env).end.k # "ok" THEN RSkip ELSE
+         IF Eval(ast.i, in, env).out = <<>> /\ Eval(ast.s, in, env).end.k # "ok" THEN RSkip ELSE
          BindR(Eval(ast.i, in, env),
                [k |-> "foreachI", src |-> Eval(ast.s, in, env), upd |-> ast.u, x |-> ast.x, env |-> env,
                 has |-> ("e" \in DOMAIN ast), ext |-> IF "e" \in DOMAIN ast THEN ast.e ELSE [op |-> "id"]])
